@@ -1695,13 +1695,16 @@ theorem prog_done {ph : Ph} {r : Res} (h : ph.prog = .done r) : ph = .fin r := b
       updateNodeProg, updateNodeSecond, updateEdgeProg, updateEdgeSecond, addLabelProg, removeLabelProg,
       createNodeProg, createNodeFrom] at h
 
-theorem WF_of_J_quiescent {ne0 : Nat} {D : Nat → Prop} {phs : List Ph} {s : St} {held : List Key} (hJ : J ne0 D phs s held)
-    (hfin : ∀ (j : Nat) (ph : Ph), phs[j]? = some ph → ∃ r, ph = .fin r) : WF s.kv := by
+/-- a phase that owes nothing: no operation in flight that may leave an edge unlisted -/
+def Ph.quiet (ph : Ph) : Prop := ∀ x K, ¬ Exc ph x K
+
+theorem WF_of_J_quiet {ne0 : Nat} {D : Nat → Prop} {phs : List Ph} {s : St} {held : List Key} (hJ : J ne0 D phs s held)
+    (hfin : ∀ (j : Nat) (ph : Ph), phs[j]? = some ph → ph.quiet) : WF s.kv := by
   have hl : ∀ x r, edgeAt s.kv x = some r → ∀ K ∈ req r, x ∈ L s.kv K := by
     intro x r hr K hK
     rcases (hJ.e1 x r hr).2.2 K hK with h | ⟨j, ph, hj, he⟩
     · exact h
-    · obtain ⟨r', rfl⟩ := hfin j ph hj; simp [Exc] at he
+    · exact absurd he (hfin j ph hj x K)
   refine ⟨?_, ?_, ?_, fun n => hJ.e3 (.out n), fun n => hJ.e3 (.inn n)⟩
   · intro x r hr
     obtain ⟨a1, a2, _⟩ := hJ.e1 x r hr
@@ -1725,6 +1728,10 @@ theorem WF_of_J_quiescent {ne0 : Nat} {D : Nat → Prop} {phs : List Ph} {s : St
       · exact Or.inl h.symm
       · exact Or.inr ⟨rfl, h.symm⟩
     · exact Or.inl hK.symm
+
+theorem WF_of_J_quiescent {ne0 : Nat} {D : Nat → Prop} {phs : List Ph} {s : St} {held : List Key} (hJ : J ne0 D phs s held)
+    (hfin : ∀ (j : Nat) (ph : Ph), phs[j]? = some ph → ∃ r, ph = .fin r) : WF s.kv :=
+  WF_of_J_quiet hJ (fun j ph hj x K he => by obtain ⟨r', rfl⟩ := hfin j ph hj; simp [Exc] at he)
 
 /-- every interleaving of admissible operations ends, when all threads have finished, in a
     well-formed store -/
